@@ -770,6 +770,13 @@ func HandOps(f *Fed) []Case {
 		{Q: "mutation ($n: Int!) { mkN1 { calc(x: $n) } incr(by: $n) }", Vars: map[string]interface{}{"n": 2}, Dec: "hand:var-two-positions"},
 		{Q: "mutation ($n: Int = 2) { mkN1 { calc(x: $n) } incr(by: $n) }", Vars: map[string]interface{}{}, Dec: "hand:var-two-positions-default"},
 		{Q: "mutation ($n: Int = 2) { incr(by: $n) mkN1 { calc(x: $n) } }", Vars: map[string]interface{}{}, Dec: "hand:var-two-positions-default"},
+		// ... at two positions of the same selection level, the nullable one declared with a default
+		{Q: "query ($n: Int = 2) { echo(x: $n) page0(p: {limit: $n}) }", Vars: map[string]interface{}{}, Dec: "hand:var-two-positions-default"},
+		{Q: "query ($n: Int = 2) { page0(p: {limit: $n}) echo(x: $n) }", Vars: map[string]interface{}{}, Dec: "hand:var-two-positions-default"},
+		{Q: "query ($n: Int = 2) { echo(x: $n) page0(p: {limit: $n}) }", Vars: map[string]interface{}{"n": 4}, Dec: "hand:var-two-positions-default"},
+		// a named fragment spread at two paths whose body holds an inline fragment with a field of another service below
+		{Q: "fragment F on N1 { name ... on N1 { n2s { title } } } { n1s { ...F n2s { owner { ...F } } } }", Vars: map[string]interface{}{}, Dec: "hand:named-fragment-two-paths"},
+		{Q: "fragment F on N2 { ... on N2 { owner { name } } } { n2 { ...F owner { n2s { ...F } } } }", Vars: map[string]interface{}{}, Dec: "hand:named-fragment-two-paths"},
 		// a literal that reads like the name of a variable used elsewhere
 		{Q: "query ($name: Int) { echo(x: $name) n1ByName: n1s { calc(x: 1) } }", Vars: map[string]interface{}{"name": 5}, Dec: "hand:literal-like-variable"},
 	}
